@@ -804,6 +804,7 @@ func genC19(c *Ctx) {
 		}
 		classifyPos(c, p)
 		tok := encPos(p)
+		c.Count("theorem-hypotheses=" + c.Emit("c19hyp "+tok))
 		out := c.Emit("threats " + tok)
 		f := strings.Fields(out)
 		if len(f) == 4 {
